@@ -44,7 +44,16 @@ TRUSTED = ["source translation gen/c12_src.py -> coq/Gen/C12Src.v (statement-by-
            "children) -> X_children, inline(t, t) -> X_str, literal(t, t) -> X_lit, node[0].deepcopy() -> inner_of explicit; "
            "make_refnode(builder, a, b, c, n) -> (make_refnode a b c, n), try .. except NoUri ignored (html builders); log_warning(t, .., "
            "XREF_MISSING) -> log_missing t; node.replace_self(x) -> the outcome; the 'std' object-type loop and the domains loop of "
-           "resolve_myst_ref_any -> the oracles std_objects / other_domains (order checked)",
+           "resolve_myst_ref_any -> the oracles std_objects / other_domains (order checked); run: node['reftype'] != 'myst' / node["
+           "'refdomain'] == 'doc' -> the two flags of the pending node, _resolve_myst_ref_intersphinx -> oracle intersphinx, the "
+           "fallback nodes.reference()+refid=normalizeLink(target)+append(node[0].deepcopy()) -> (T_fallback target, inner_of "
+           "explicit), len(children)==1 and inline and empty -> txt_empty_inline, newnode.children -> non-empty, the blocks that only "
+           "set classes / carry ids over are skipped (shape-checked); mocking.py include: md_env['relative-images'|'relative-docs'] "
+           "assignments / pop / update(outer_relative) -> set_images / set_docs / restore on the two-entry record menv, "
+           "Path(include_log[0][0]).parent -> root_dir (the outermost document's directory), nested_render_text -> the parameter render",
+           "ResolveAnchorIds.apply: coq/Gen/AnchorsSrc.v regenerated by the C09 builder (gen/c09_src.py) and its refinement theorem "
+           "Refs/AnchorsSrcProofs.apply_src_eq are imported, not re-translated; the document's explicit-name table and slug table are "
+           "converted by ex_of / slugs_c09 (coq/XRef/XRefPipeline.v)",
            "coq/XRef/Path.v, coq/XRef/XRefModel.v are hand transcriptions of posixpath/pathlib/Sphinx path functions and of "
            "render_link*/_handle_relative_docs/ResolveAnchorIds/MystReferenceResolver (checked by correspondence, not proved)",
            "Sphinx 8.2 environment, html/dirhtml builders and writer (pages, _downloads copies) as oracles",
@@ -65,11 +74,17 @@ ORACLES = {
                        "generated projects (the model instance run_link_plain); checked implicitly by the per-link comparison",
     "O_posixpath": "posixpath.normpath/join/relpath, pathlib parsing, sphinx docname_join/relative_uri: model vs library, exhaustive "
                    "on small segment lists + random strings (buckets pathfn:*)",
+    "O_contnode_std / O_contnode_other / O_contnode_isx": "premises of C12_text_explicit(_pipeline): a candidate supplied by another std "
+                 "object type, another domain or intersphinx carries the link's own content node (make_refnode(..., contnode) / "
+                 "newnode.append(contnode) in the code). In the generated projects those sources return nothing, so the premises hold "
+                 "vacuously there; what is exercised on every link with explicit text is the conclusion (nested markup of the link "
+                 "text found unchanged in doctree and HTML: corr text signature, search link:*:text)",
     "O_include": "MockIncludeDirective sets md_env['relative-docs'] = (prefix, dir of the including source, dir of the included "
                  "file): exercised by every link of a generated fragment",
 }
-ASSUMPTIONS = ["configuration: myst_heading_anchors=3; axis generated and modelled: myst_all_links_external, myst_url_schemes (extra "
-               "schemes, also 'project'), myst_ref_domains; commonmark_only / gfm_only off. Reading: the property speaks about MyST's "
+ASSUMPTIONS = ["configuration: myst_heading_anchors=3; axis generated and modelled: myst_all_links_external, myst_commonmark_only, "
+               "myst_url_schemes (extra schemes, also 'project'), myst_ref_domains; myst_gfm_only is modelled (plain_url_mode) but not "
+               "built: it needs linkify-it-py, which is not installed (ModuleNotFoundError at parser set-up). Reading: the property speaks about MyST's "
                "link resolution - under all_links_external, and for a scheme the user lists in url_schemes, links are external URLs "
                "by configuration and the search makes no claim (the model still predicts them); ref_domains does not change labels/"
                "documents",
@@ -180,6 +195,8 @@ def gen_project(rng, size=None):
     cfg = {}
     if rng.random() < 0.08:
         cfg["all_links_external"] = True
+    if rng.random() < 0.06:
+        cfg["commonmark_only"] = True       # plain CommonMark: every link is an external URL, no MyST syntax at all
     if rng.random() < 0.15:
         cfg["url_schemes"] = URL_SCHEMES + ["wiki"] + (["project"] if rng.random() < 0.3 else [])
     if rng.random() < 0.15:
@@ -327,7 +344,7 @@ def gen_links(rng, desc):
     contexts = []
     for src in mds:
         contexts.append((src, None))
-        if rng.random() < 0.3:
+        if rng.random() < 0.3 and not (desc.get("config") or {}).get("commonmark_only"):
             # a file A pulled in with {include} :relative-docs: <prefix> ; it lives in any directory.  Sometimes A
             # itself includes a file B (with its own :relative-docs: or without: then A's setting applies to B),
             # and A goes on after that include (where A's setting must be in force again).
@@ -577,6 +594,8 @@ def project_files(desc):
     cfg = desc.get("config") or {}
     if cfg.get("all_links_external"):
         conf += "myst_all_links_external = True\n"
+    if cfg.get("commonmark_only"):
+        conf += "myst_commonmark_only = True\n"
     if cfg.get("url_schemes"):
         conf += "myst_url_schemes = %r\n" % cfg["url_schemes"]
     if cfg.get("ref_domains"):
@@ -846,7 +865,8 @@ def model_line(desc, obs):
     cfg = desc.get("config") or {}
     toks = ["run", "S", enc_strs(src), enc_strs(SUFFIXES), enc_strs(desc.get("nitpick", [])),
             enc_strs(cfg.get("url_schemes") or URL_SCHEMES),
-            "1" if desc.get("builder") == "dirhtml" else "0", "1" if cfg.get("all_links_external") else "0"]
+            "1" if desc.get("builder") == "dirhtml" else "0", "1" if cfg.get("all_links_external") else "0",
+            "1" if cfg.get("commonmark_only") else "0"]
     files, _ = project_files(desc)
     for f in files:
         toks += ["F", enc_strs(f.split("/"))]
@@ -1212,7 +1232,9 @@ def corr(ctx):
             ctx.count("corr:build-exception")
             ctx.disagree("build-exception", {"kind": "project", "desc": desc}, obs["exception"], "no exception in the model")
             continue
-        if not check_env(ctx, desc, obs):
+        if (desc.get("config") or {}).get("commonmark_only"):
+            ctx.count("env-check-skipped:commonmark_only")     # no targets, no toctree in plain CommonMark
+        elif not check_env(ctx, desc, obs):
             continue
         line, order = model_line(desc, obs)
         todo.append((desc, obs, line, order))
@@ -1261,7 +1283,7 @@ def expect(desc, src_doc, l):
     # switches that off for every link, and a scheme listed in myst_url_schemes makes links of that scheme external
     # URLs by the user's choice: no claim there.  myst_ref_domains only filters the other domains / inventories
     # (labels and documents are always tried), so the expectations are unchanged under it.
-    if cfg.get("all_links_external"):
+    if cfg.get("all_links_external") or cfg.get("commonmark_only"):
         return None
     if "project" in (cfg.get("url_schemes") or []) and l["dest"].startswith("project:"):
         return None
@@ -1351,7 +1373,7 @@ def check_link(ctx, desc, obs, src_doc, l):
     # --- text
     if ex.get("text") is not None and sig != ex["text"]:
         fail("text", "link text differs", ex["text"], sig)
-    elif ex.get("text") is None and ex.get("nonempty") and not sig.strip():
+    elif ex.get("text") is None and ex.get("nonempty") and not re.sub(r"\b(?:em|st|c)\(|\)", "", sig).strip():
         fail("fallback-text", "an unresolved link without link text shows nothing", "some text naming the target", sig)
     # --- target
     if "download" in ex:
@@ -1436,7 +1458,10 @@ def search_projects(ctx, descs, obss):
         # stray warnings: everything in the stream must belong to a link line
         lines = {(link_file(d, l), obs["lines"][d["docname"]][str(l["n"])] + k) for d in desc["docs"] for l in d["links"]
                  for k in ((0, 1) if l.get("inc") else (0,))}
+        cm = (desc.get("config") or {}).get("commonmark_only")
         for w in obs["warnings"]:
+            if cm and not (w[2] or "").startswith("myst."):
+                continue      # plain CommonMark: the toctree fence is a code block etc.; only MyST warnings are spurious
             if (w[0], w[1]) not in lines:
                 ctx.search_cases += 1
                 ctx.fail("stray-warning:" + (w[2] or "untyped"), {"kind": "project", "desc": desc},
@@ -1504,4 +1529,6 @@ LEVEL_TEXT = ("Proof (Coq) about a hand-written model of the link classifier (re
 LEVEL_NOTE = ("Partial: the Sphinx environment (all_docs, titles, myst_slugs, std labels), the file system, other domains and "
               "intersphinx are oracle hypotheses (O_sphinx_env etc.), each exercised on every generated project; the model is a "
               "transcription checked by correspondence, not proved equal to the Python code; default configuration only. "
-              "No open finding (five repaired: 4baaac6, 30d027a, 5310f28, 3257367, 9a2ab65).")
+              "No open finding (seven repaired: 4baaac6, 30d027a, 5310f28, 3257367, 9a2ab65, 8272e06, b916a8c). Since round 3/4 the "
+              "classifier, the resolver incl. MystReferenceResolver.run, the include bookkeeping and (imported from C09) "
+              "ResolveAnchorIds.apply are regenerated from the source and proved equal to the model (pipeline_src).")
